@@ -14,3 +14,8 @@ CLAIMED["C16"] = dict(
     text="Decides on every path of internal/deque/queue the disciplines exactly-once delivery rests on: reserve (index CAS) before publish and slot derived from the pre-CAS reads; result protocol of the slow path ('full' only when no capacity is left, 'resize' only after the odd-index CAS); the five-step publication order of resize; consumer returns nil only for an empty queue, awaits unpublished slots, clears before advancing, follows the jump marker; all slot accesses atomic; single consumer (TryPop only under the eviction lock); the cache never drops a task it could not push. Does not decide exactly-once/FIFO delivery over interleavings.",
     note=TB + "Assumes Go-memory-model sequential consistency of sync/atomic.",
     ref="DESIGN.md §4 C16")
+CLAIMED["C17"] = dict(
+    technique="static analysis: dominance/edge-guard/order rules on the ring and stripe table SSA, constant/array-length agreement, def-use slice, eviction-lock context analysis",
+    text="Decides on every path of internal/lossy: reserve (tail CAS) before publish into the reserved slot, capacity test against the real array length, consumer hands over only non-nil loaded slots, clears before delivering/publishing, stops at the first unpublished slot, advances once per element; stripe table/slots written only in a busy region that is always left; expansion copies every stripe before publishing; DrainTo only under the eviction lock; the Add status flows only into the drain-scheduling decision (dropping reads cannot change results). Does not decide loss/duplication freedom over interleavings.",
+    note=TB + "Assumes sequential consistency of sync/atomic.",
+    ref="DESIGN.md §4 C17")
